@@ -105,7 +105,12 @@ def check(case, M):
 
 
 def corpus():
-    return [
+    # the witness of findings C12-F12 / C12-F13 (a posteriori merges) once they are registered
+    extra = []
+    if B.enabled("C12-F12") and B.enabled("C12-F13"):
+        extra = [{"family": "fin", "build": {"src": "testdsl", "request": ["->", "int", "int"], "kind": "cfg", "max_depth": 3, "min_var": 1, "n_gram": 1},
+                  "order": "built", "oseed": 120293944, "costs": "wide", "wseed": 613028649, "filter": None, "merges": [[8, 37888]], "take": None, "fseed": None}]
+    return extra + [
         {"family": "fin", "build": {"src": "testdsl", "request": ["->", "int", "int"], "kind": "cfg", "max_depth": 3, "min_var": 1, "n_gram": 2},
          "order": "built", "oseed": 0, "costs": "dyadic", "wseed": 5, "filter": {"kind": "even"}, "merges": [], "take": None, "fseed": None},
         {"family": "fin", "build": {"src": "prims", "prims": [["f0", ["->", "bool", "bool"]], ["f1", ["->", "bool", "bool"]], ["c0", "bool"]], "forbidden": [],
